@@ -22,6 +22,8 @@ var c11Queries = []string{
 	"SELECT a, `distinct=>dup` AS d FROM t WHERE a > ?",
 	"SELECT p FROM `mix=>t.items` WHERE p > ?",
 	"SELECT a, `items[0].p` AS p0, `dup[(0:1)]` AS d FROM t WHERE a > ?",
+	"SELECT a FROM t WHERE EXISTS (SELECT * FROM w WHERE w > ?)",
+	"SELECT a, (SELECT w FROM w WHERE w > ?) AS s FROM t",
 	"SELECT a, (WITH c AS (SELECT p FROM items) SELECT p FROM c) AS s FROM t WHERE a > ?",
 	"SELECT a, FIRST((WITH c AS (SELECT p FROM items WHERE p > ?) SELECT p FROM c)) AS s FROM t",
 	// joins with unmatched rows on either side, with and without aliases (from here: unwrapped only)
@@ -40,7 +42,7 @@ var c11Queries = []string{
 	"SELECT x.a AS k, y.w AS v FROM t x LEFT JOIN u y ON x.a = y.a WHERE x.a > ? ORDER BY k",
 }
 
-const c11FirstJoin = 21
+const c11FirstJoin = 23
 
 var faultAt, faultCalls int
 
@@ -69,6 +71,8 @@ func H_C11_readonly() {
 	doc, rows := nestedDoc(n, k)
 	for _, r := range rows {
 		r["dup"] = []any{r["a"], float64(1), r["a"], float64(2), float64(1), float64(3)}
+		// a nested table whose rows have a single key spelled like the table
+		r["w"] = []any{Map{"w": r["a"]}, Map{"w": float64(3)}}
 	}
 	if qi >= c11FirstJoin {
 		if wrapped == 1 || faultAt != 0 || k != 1 {
